@@ -199,6 +199,11 @@ func cliSelect(c *fw.Ctx) {
 			}
 			sels = append(sels, s)
 		}
+		if rr.Intn(7) == 0 {
+			// the empty selector: no key asked for, no clause - every feature.
+			sels = append(sels, sel{key: "", str: ""})
+			c.Bucket("cli:select empty selector")
+		}
 		if rr.Intn(5) == 0 {
 			// a selector that accepts the source feature too (which is kept
 			// whatever the selection, also under -v).
@@ -600,6 +605,19 @@ func cliReverseComplement(c *fw.Ctx) {
 		var text []byte
 		for k := 0; k < nrec; k++ {
 			gb, b := cliRecord(rr, 20+rr.Intn(40), true)
+			if rr.Intn(5) == 0 {
+				// a record of one residue with a feature open at one end: the
+				// residue stays where it is, the marker changes ends.
+				b = []byte{"acgt"[rr.Intn(4)]}
+				gb.Origin = seqio.NewOrigin(append([]byte(nil), b...))
+				pt := []gts.Partial{gts.Partial5, gts.Partial3}[rr.Intn(2)]
+				var loc gts.Location = gts.PartialRange(0, 1, pt)
+				if rr.Intn(2) == 0 {
+					loc = loc.Complement()
+				}
+				gb.Table = gts.FeatureSlice{{Key: "gene", Loc: loc, Props: gts.Props{{"label", "h0"}}}}
+				c.Bucket("cli:one-residue record with an open end")
+			}
 			if it%2 == 1 && rr.Intn(4) == 0 {
 				// an annotated record without residues (CONTIG only), as the
 				// databases ship large genomes: complementing it still puts
